@@ -164,6 +164,46 @@ func TestC03_SameConfiguration(t *testing.T) {
 					c.Failf("decode-full-expression-mode", "encoding %d with an empty non-nil context: native %#v (err=%v), JSON %#v (err=%v: %s)", k, nVal2, nDiags2.HasErrors(), jVal2, jDiags2.HasErrors(), diagStr(jDiags2))
 				}
 			}
+			// the block sequence, across types: a JSON encoding that writes every block as a
+			// property (or array element) of its own keeps the order of the tree, and Content
+			// with any ordering of the schema must return that order in both syntaxes
+			if js, _, ok := render.JSONFileSeq(body, rchooser{t}, true, false, blockAttrsTypes(ms)...); ok && !nErr {
+				jf, jd := hcljson.Parse([]byte(js), "t.json")
+				if jd.HasErrors() {
+					c.Failf("json-parse-error", "sequence-preserving encoding does not parse: %s", diagStr(jd))
+				}
+				schema := toHCLSchema(exhaustiveSchemaOf(body))
+				if n := len(schema.Blocks); n > 1 {
+					// rotate the schema's block list: its order is not the order of the result
+					k := rapid.IntRange(0, n-1).Draw(t, "schema_rotation")
+					schema.Blocks = append(append([]hcl.BlockHeaderSchema{}, schema.Blocks[k:]...), schema.Blocks[:k]...)
+				}
+				seq := func(b hcl.Body) string {
+					var sb strings.Builder
+					cnt, _ := b.Content(schema)
+					for _, bl := range cnt.Blocks {
+						fmt.Fprintf(&sb, "%s%q ", bl.Type, bl.Labels)
+					}
+					return sb.String()
+				}
+				var ns, jss string
+				c.Guard("Content (sequence)", func() { ns, jss = seq(nf.Body), seq(jf.Body) })
+				var want strings.Builder
+				for _, bl := range body.Blocks() {
+					lbls := []string{}
+					for _, l := range bl.Labels {
+						lbls = append(lbls, l.Text)
+					}
+					fmt.Fprintf(&want, "%s%q ", bl.Type, lbls)
+				}
+				if ns != jss || ns != want.String() {
+					c.Set("failing_json", js)
+					c.Failf("block-sequence", "block sequence written: %s\n native Content: %s\n JSON Content:   %s", want.String(), ns, jss)
+				}
+				if len(body.Blocks()) >= 3 {
+					c.Class("sequence_compared")
+				}
+			}
 			featClasses(c, "json_", devices)
 			if nDiags.HasErrors() {
 				c.Class("invalid")
